@@ -109,6 +109,13 @@ func Run(r *rt.Run) error {
 		add(j)
 		nDelete++
 	}
+	// --- burst then silence (big buffers: the enumeration never buffers more than 5 points)
+	nBurst := 0
+	for _, j := range burstJobs(r.Thorough()) {
+		j.Mode = len(jobs) % 3
+		nBurst += len(j.Groups)
+		add(j)
+	}
 	// --- exhaustive enumeration
 	specs := []enumSpec{{[]int{0, 1, 2, 3, 4, 5, 6, 8, 10}, 5}}
 	nRand, randMaxLen := 160, 120
@@ -226,6 +233,7 @@ func Run(r *rt.Run) error {
 		inconclusive += w.inconclusive
 		w.env.Close()
 	}
+	r.Extra["burst_then_silence_sequences"] = nBurst
 	r.Extra["delete_comeback_tasks"] = nDelete
 	r.Extra["delete_comeback_group_traces"] = delTraces
 	r.Extra["delete_task_attempts_discarded_as_inconclusive"] = inconclusive
@@ -245,11 +253,72 @@ func Run(r *rt.Run) error {
 		"(first time < every with align, = 0 otherwise: time-shift symmetry), up to 1500 such groups interleaved in one task "+
 		"(round robin / seeded random merge / time order); plus TLC's shortest inputs for every ring branch; plus seeded random long "+
 		"sequences (1-3 or 8 groups, repeats, gaps that empty the window, period/every up to 12); count windows periodCount 1..5 x "+
-		"everyCount 1..5 x fillPeriod for every length up to the bound; plus group deletion: barrier().idle(1s).delete(TRUE) in front of the "+
+		"everyCount 1..5 x fillPeriod for every length up to the bound; plus burst-then-silence: N points (N around every ring capacity 2,6,14,30,62,126 "+
+		"and 32,33,64,200) inside one period or across an emission, a silence of period-1/period/period+1/3*period, three more points, for "+
+		"every in {0, <period, =period, >period} x align x fillPeriod; plus group deletion: barrier().idle(1s).delete(TRUE) in front of the "+
 		"window, phased histories (first life, every group deleted - awaited through the window node's working_cardinality -, come-back "+
 		"back to back / after another group's point / interleaved / alone, sometimes deleted twice) for time and count windows. Non-trivial = at least 2 points and at least one emitted batch; "+
 		"distinct by (configuration, timestamp sequence)", true)
 	return nil
+}
+
+// burstJobs: a group buffers N points - inside one period (shape 0) or spread over period+every+1 so
+// that a window is emitted while the buffer is large (shape 1) -, goes silent for `gap`, and comes back
+// with three points (the overdue window, the next one, and one after another long silence).  N runs
+// over the neighbourhood of every capacity of the code's ring (it grows 2, 6, 14, 30, 62, 126, 254
+// when full) and the values 32, 33, 64, 200; the gaps sit around the period.
+func burstJobs(thorough bool) []*Job {
+	periods := []int{1, 2, 4}
+	ns := []int{1, 3, 7, 15, 30, 31, 32, 33, 63, 64, 127, 200}
+	if thorough {
+		periods = []int{1, 2, 3, 4}
+		ns = []int{1, 2, 3, 5, 6, 7, 13, 14, 15, 29, 30, 31, 32, 33, 61, 62, 63, 64, 125, 126, 127, 200, 254, 255}
+	}
+	var jobs []*Job
+	for _, p := range periods {
+		evs := []int{0}
+		if p/2 >= 1 {
+			evs = append(evs, p/2)
+		}
+		evs = append(evs, p, p+1)
+		for _, e := range evs {
+			for fi := 0; fi < 4; fi++ {
+				c := Cfg{P: p, E: e, Align: fi&1 == 1, Fill: fi&2 == 2}
+				j := &Job{Kind: "burst", Cfg: c}
+				for ni, n := range ns {
+					for gi, gap := range []int{p - 1, p, p + 1, 3 * p} {
+						for shape := 0; shape < 2; shape++ {
+							if shape == 1 && gap != p+1 {
+								continue
+							}
+							t0 := (ni + gi) % 2 // with align the phase of the first point matters
+							width := p
+							if shape == 1 {
+								width = p + e + 1
+							}
+							seq := make([]int, 0, n+3)
+							for i := 0; i < n; i++ {
+								seq = append(seq, t0+i*width/n)
+							}
+							t := seq[len(seq)-1] + gap
+							seq = append(seq, t)
+							step := e
+							if step == 0 {
+								step = 1
+							}
+							t += step
+							seq = append(seq, t)
+							t += 2*p + e + 1
+							seq = append(seq, t)
+							j.Groups = append(j.Groups, seq)
+						}
+					}
+				}
+				jobs = append(jobs, j)
+			}
+		}
+	}
+	return jobs
 }
 
 // randSeq: a long non-decreasing sequence with repeats, steps around every/period and gaps that empty the window.
